@@ -13,7 +13,7 @@ def run(run, tier, seed):
                 "maps injectively to a planted indel (same length, allele a rotation of the planted bases on either strand, same "
                 "long-form samples). traces: ancestors with unique (k-1)-mers, 1-3 planted insertions/deletions of 1-10 bases >= 4k "
                 "apart, 3-8 samples, k in {11,15,21,31}, threads 1..4; reported/planted are summed for the 90% bound, overall and for the "
-                "classes (k=11, 10 bases), (other k, 10 bases), (1 base). non-trivial = "
+                "classes (k=11, 10 bases), (other k, 10 bases), (1 base), (three like single-base indels). non-trivial = "
                 "precondition holds, an indel with a proper non-empty carrier set; distinct by scenario")
     run.assumptions = ["'at least 90% of the planted indels are reported' is read as an aggregate over the run and over each named class of the stated domain",
                        "precondition: every derived sample has unique (k-1)-mers on both strands (coordinates shift behind an indel)",
@@ -44,8 +44,12 @@ def run(run, tier, seed):
     # over, so each must reach the 90 % by itself (same test as below).
     classes = []
     nq = 8 if tier == "quick" else 60
-    for label, ks, ln in (("k11_len10", [11], 10), ("k15to31_len10", [15, 21, 31], 10), ("len1", [11, 15, 21, 31], 1)):
-        evs = lodrv.indel_events(run, tier, seed + 1800 + ln + ks[0], "c18" + label, ks=ks, fixed_len=ln, n=nq)
+    # ... and "triplets": three single-base indels of the same base in the same samples, 4k apart - different indels whose
+    # REF / ALT / genotype fields read alike
+    for label, ks, ln in (("k11_len10", [11], 10), ("k15to31_len10", [15, 21, 31], 10), ("len1", [11, 15, 21, 31], 1),
+                          ("triplets", [11, 15, 21, 31], 1)):
+        evs = lodrv.indel_events(run, tier, seed + 1800 + ln + ks[0] + len(label), "c18" + label, ks=ks, fixed_len=ln, n=nq,
+                                 twins=(label == "triplets"))
         ok, bad, states = vlib.validate_trace("Trace_Lo", evs, "c18-" + label, shards=4, timeout=1500)
         run.states += states
         run.transitions += len(evs)
